@@ -36,11 +36,14 @@ ASSUMPTIONS = [
     "comparisons satisfy them but Lean's Float is opaque, so this is not a theorem about floatNum)",
     "beat indices are int32_t (Idx32) and the sample count int64_t, as in the C++ signature; the theorems that "
     "mention the window assume a positive sample count",
+    "the theorems about the regenerated function (C20Gen_*) assume in addition at most 2^31 markers (Len31: the "
+    "source computes int32_t last = size() - 1); the translator's mapping (design/C20_gen.md) is trusted and is "
+    "exercised on every run by executing the regenerated function against the real library",
 ]
 MANIFEST = dict(
-    text="Theorems about the Model of normalize_beatgrid, generic over its arithmetic: for every arithmetic (hence for the hardware-Float instance tied bit for bit to the C++) normalisation of a grid with int indices returns a grid or throws invalid_argument (C20_defined: no undefined behaviour - true since the fix that moved the index arithmetic to 64 bits and range-checks the double->int conversion), first index -4, interior positions untouched; over exact rationals, stated about the input grid through the Spec window (trim = window is a theorem): a strictly increasing grid is accepted iff >= 2 of its markers overlap the track, beat -4 lies before the second window marker, the track extends beyond beat -4 and the last index is representable (C20_reject_iff, C20_overlap_iff, C20_accept_of_overlap); last marker in [n, n + beat), first/last tempo kept, interior markers of the input inside the track kept and nothing else, result strictly increasing, idempotent - all grids, any length. Tie: C++ vs Float instance bit for bit (applied twice), C++ vs the exact-rational run within 1e-9 relative, Python oracle written from the property text on the implementation's own answers, extreme-index / extreme-sample-count stream for totality.",
-    note="Trusted: Lean kernel (+ Mathlib's order/field lemmas on Rat); floating-point rounding itself is not bounded by a theorem (tie tolerance 1e-9 relative, rounding-boundary cases counted in the evidence).",
-    technique='Lean 4 theorems (generic over the arithmetic + exact rationals) about an executable model + bit-exact differential run over Float + Float-vs-Q comparison',
+    text="Theorems about the Model of normalize_beatgrid, generic over its arithmetic: for every arithmetic (hence for the hardware-Float instance tied bit for bit to the C++) normalisation of a grid with int indices returns a grid or throws invalid_argument (C20_defined: no undefined behaviour - true since the fix that moved the index arithmetic to 64 bits and range-checks the double->int conversion), first index -4, interior positions untouched; over exact rationals, stated about the input grid through the Spec window (trim = window is a theorem): a strictly increasing grid is accepted iff >= 2 of its markers overlap the track, beat -4 lies before the second window marker, the track extends beyond beat -4 and the last index is representable (C20_reject_iff, C20_overlap_iff, C20_accept_of_overlap); last marker in [n, n + beat), first/last tempo kept, interior markers of the input inside the track kept and nothing else, result strictly increasing, idempotent - all grids, any length. The model is also REGENERATED from engine.cpp on every run (tools/tr_beatgrid.py, clang typed AST -> Gen/BeatgridGen.lean over the same arithmetic class) and proved equal to the hand model for every arithmetic on grids with int indices and <= 2^31 markers (C20Gen_eq_partial); defined / rejection set / acceptance / interior / tempo / bracket / sorted / idempotent are restated on the regenerated function (C20Gen_*), so a change of what the C++ computes breaks a proof obligation. Tie: C++ vs Float instance bit for bit (applied twice), C++ vs the exact-rational run within 1e-9 relative, Python oracle written from the property text on the implementation's own answers, extreme-index / extreme-sample-count stream for totality; the regenerated function over Float against the C++ bit for bit on the same inputs.",
+    note="Trusted: Lean kernel (+ Mathlib's order/field lemmas on Rat); floating-point rounding itself is not bounded by a theorem (tie tolerance 1e-9 relative, rounding-boundary cases counted in the evidence); the translator tools/tr_beatgrid.py and its vocabulary Pure/BeatgridVec.lean (mapping table in design/C20_gen.md; fails closed on an unsupported node: previous translation stays, status in the evidence).",
+    technique='Lean 4 theorems (generic over the arithmetic + exact rationals) about an executable model, the model also regenerated from source and proved equal + bit-exact differential run over Float + Float-vs-Q comparison',
     ref='6/C20')
 TRUSTED_EXTRA = ["tools/tr_beatgrid.py (clang-14 JSON AST of normalize_beatgrid -> Lean over the same arithmetic class; "
                  "mapping table in design/C20_gen.md, vocabulary lean/EngineModel/Pure/BeatgridVec.lean; validated by "
